@@ -1863,6 +1863,7 @@ func (ts *Service) handleUpdateTemplate(w http.ResponseWriter, r *http.Request) 
 // Rollsback all updated tasks if an error occurs.
 func (ts *Service) updateAllAssociatedTasks(old, new Template, taskIds []string) error {
 	var i int
+	oldDBRPs := make(map[string][]DBRP, len(taskIds))
 	oldPn, err := newProgramNodeFromTickscript(old.TICKscript)
 	if err != nil {
 		return fmt.Errorf("failed to parse old tickscript: %v", err)
@@ -1892,14 +1893,8 @@ func (ts *Service) updateAllAssociatedTasks(old, new Template, taskIds []string)
 			task.TemplateID = old.ID
 			task.TICKscript = old.TICKscript
 			task.Type = old.Type
-			if len(dbrpsFromProgram(oldPn)) > 0 {
-				task.DBRPs = []DBRP{}
-				for _, dbrp := range dbrpsFromProgram(oldPn) {
-					task.DBRPs = append(task.DBRPs, DBRP{
-						Database:        dbrp.Database,
-						RetentionPolicy: dbrp.RetentionPolicy,
-					})
-				}
+			if dbrps, ok := oldDBRPs[taskId]; ok {
+				task.DBRPs = dbrps
 			}
 			if err := ts.tasks.Replace(task); err != nil {
 				ts.diag.Error("error rolling back associated task", err, keyvalue.KV("task", taskId))
@@ -1934,6 +1929,7 @@ func (ts *Service) updateAllAssociatedTasks(old, new Template, taskIds []string)
 		task.TemplateID = new.ID
 		task.TICKscript = new.TICKscript
 		task.Type = new.Type
+		oldDBRPs[taskId] = task.DBRPs
 
 		if len(dbrpsFromProgram(oldPn)) > 0 || len(dbrpsFromProgram(newPn)) > 0 {
 
